@@ -4,6 +4,7 @@ spec/nvidia/NvSim.tla          design spec: driver / GPU / SM / sub-core work co
                                one action per Tick sub-step + the connection; Dev = as-implemented deviations
 spec/nvidia/MC_*.cfg           exhaustive model checking (intended design incl. degenerate traces, tree as implemented
                                on non-degenerate traces, expected counterexample for the empty-unit defect, liveness)
+spec/nvidia/NvTick.tla         the same system per engine event with akita's wake/sleep protocol (no lost wake-up)
 spec/nvidia/NvSimScen.tla      TLC behaviours -> (platform shape, trace, submission points) scenarios
 spec/nvidia/NvTrace.tla        message-event traces of the real simulator checked against NvSim
 spec/nvidia/NvParse.tla        the accel-sim file format (reference parser + serialiser, round trip model-checked)
@@ -29,6 +30,7 @@ RULE = ('cases = simulation runs of the real NVIDIA simulator on generated accel
         'parsed file containing >= 1 memory instruction')
 TSIM = {'dirs': ['nvidia'], 'module': 'NvTrace.tla', 'cfg': 'NvTrace.cfg'}
 TPARSE = {'dirs': ['nvidia'], 'module': 'NvParseTrace.tla', 'cfg': 'NvParseTrace.cfg'}
+TTICK = {'dirs': ['nvidia'], 'module': 'NvTickTrace.tla', 'cfg': 'NvTickTrace.cfg'}
 SHIPPED = os.path.join(vlib.REPO, 'nvidia', 'data', 'simple-trace-example')
 
 
@@ -158,11 +160,40 @@ def run_driver(ctx, drv, scen, tag, pout=False):
     json.dump(scen, open(sfile, 'w'))
     t = os.path.join(ctx.scratch, 'trace_%s.ndjson' % tag)
     p = os.path.join(ctx.scratch, 'ptrace_%s.ndjson' % tag)
-    args = ['-scen', sfile, '-out', t] + (['-pout', p] if pout else [])
+    args = ['-scen', sfile, '-out', t] + (['-pout', p] if pout else ['-tout', tick_file(t)])
     pr, stats = common.run_driver(ctx, drv, args)
     if stats is None:
         raise vlib.Infra('driver failed: ' + pr.stdout[-2000:])
     return (p if pout else t), stats
+
+
+def tick_file(trace_path):
+    return trace_path[:-len('.ndjson')] + '_ticks.ndjson'
+
+
+def conformance_of_tick_model(ctx, trace_path):
+    """The per-engine-event log against NvTick (exact prediction of every tick + wake/sleep flags at idle).
+    This binds the model whose IdleDone / termination results are claimed to the code; it takes no verdict:
+    a property violation is decided by NvTrace (order-free sub-steps), a mere mismatch here means the code's
+    tick no longer has the shape NvTick describes (e.g. sub-steps reordered) and is recorded in the evidence."""
+    path = tick_file(trace_path)
+    if not os.path.exists(path) or os.path.getsize(path) == 0:
+        return
+    v = ctx.validate_trace(TTICK['dirs'], TTICK['module'], TTICK['cfg'], path, timeout=1800)
+    n = len(vlib.split_traces(path))
+    c = ctx.cov.setdefault('tick_model', {'runs_conforming': 0, 'engine_events_predicted': 0, 'mismatch': None,
+                                           'ticks_not_predicted_by_awake_flags': 0})
+    if v['accepted']:
+        c['runs_conforming'] += n
+        c['engine_events_predicted'] += v['n']
+        c['ticks_not_predicted_by_awake_flags'] += sum(int(x) for x in re.findall(r'<<"UNPREDICTED", (\d+), \d+>>', v['res'].out))
+    else:
+        hw = v['highwater'] or 1
+        _, recs = vlib.trace_containing(path, hw)
+        c['mismatch'] = {'line': hw, 'violated': v['violated']}
+        ctx.notes.append('NvTick no longer predicts the ticks of this tree (first mismatch at tick-log line %d); the '
+                         'model-level no-lost-wake-up result is not bound to this tree' % hw)
+        ctx.log('NOTE: tick-level model mismatch at line %d of %s (no verdict taken)' % (hw, os.path.basename(path)))
 
 
 def validate(ctx, tspec, path, scen, what):
@@ -354,6 +385,52 @@ def parse_corruptions():
             ('corrupt_header_field', header), ('corrupt_address', addr_nonprefixed)]
 
 
+def tick_corruptions():
+    def swap_events(recs, rng):
+        idx = [i for i, r in enumerate(recs) if r['e'] == 'Tick' and len(r['evs']) >= 2 and r['evs'][0] != r['evs'][1]]
+        if not idx:
+            return None
+        r = recs[rng.choice(idx)]
+        r['evs'][0], r['evs'][1] = r['evs'][1], r['evs'][0]
+        return recs
+
+    def other_component(recs, rng):
+        idx = [i for i, r in enumerate(recs) if r['e'] == 'Tick' and r['evs'] and r['x']['k'] == 'Subcore']
+        if not idx:
+            return None
+        x = recs[rng.choice(idx)]['x']
+        x['k'], x['c'] = 'SM', 0
+        return recs
+
+    def drop_tick(recs, rng):
+        idx = [i for i, r in enumerate(recs) if r['e'] == 'Tick' and r['evs']]
+        if not idx:
+            return None
+        i = rng.choice(idx)
+        return recs[:i] + recs[i + 1:]
+
+    def idle_while_awake(recs, rng):
+        q = [r for r in recs if r['e'] == 'Quiesce']
+        idx = [i for i, r in enumerate(recs) if r['e'] == 'Tick' and any(e['e'].startswith('Send') for e in r['evs'])]
+        if not q or not idx:
+            return None
+        i = idx[0]
+        return recs[:i + 1] + [dict(q[0])] + recs[i + 1:]
+
+    def payload(recs, rng):
+        idx = [i for i, r in enumerate(recs) if r['e'] == 'Tick' and any(e['e'] == 'SendW' for e in r['evs'])]
+        if not idx:
+            return None
+        for e in recs[rng.choice(idx)]['evs']:
+            if e['e'] == 'SendW':
+                e['pl'] += 1
+        return recs
+
+    return [('swap_events_within_tick', swap_events), ('tick_of_another_component', other_component),
+            ('drop_tick', drop_tick), ('engine_idle_while_model_awake', idle_while_awake),
+            ('corrupt_dispatched_warp', payload)]
+
+
 # --------------------------------------------------------------------- checks
 def model_check(ctx, thorough):
     if os.environ.get('C20_DEV_SKIP_MC'):      # development aid (mutant runs): the model does not depend on /repo
@@ -369,9 +446,17 @@ def model_check(ctx, thorough):
     ctx.log('MC_live (termination under fairness, Quiet = deadlock): %d distinct states' % r.distinct)
     r = ctx.tlc_expect_ok(['nvidia'], 'MC_NvParse.tla', 'MC_NvParse.cfg', timeout=900)
     ctx.log('MC_NvParse (ParseInst o InstToks = id, ParseFile o Serialize = id under every layout): %d cases' % r.distinct)
+    # wake/sleep protocol (one action per engine event): no schedule lets the engine go idle with work left
+    r = ctx.tlc_expect_ok(['nvidia'], 'MC_NvTick.tla', 'MC_tick_asimpl.cfg', timeout=900)
+    ctx.log('MC_tick_asimpl (tick protocol as implemented, traces without empty units): %d distinct states' % r.distinct)
+    r = ctx.tlc_expect_ok(['nvidia'], 'MC_NvTick.tla', 'MC_tick_fixed.cfg', timeout=900)
+    ctx.log('MC_tick_fixed (proposed repair of the empty units, all traces): %d distinct states' % r.distinct)
     if thorough:
         for cfg in ('MC_ragged.cfg', 'MC_intended_big.cfg', 'MC_asimpl_big.cfg'):
             r = ctx.tlc_expect_ok(['nvidia'], 'MC_NvSim.tla', cfg, workers=min(vlib.NCPU, 12), timeout=2400)
+            ctx.log('%s: %d distinct states' % (cfg, r.distinct))
+        for cfg in ('MC_tick_fixed_cap1.cfg', 'MC_tick_fixed_big.cfg', 'MC_tick_asimpl_big.cfg'):
+            r = ctx.tlc_expect_ok(['nvidia'], 'MC_NvTick.tla', cfg, workers=min(vlib.NCPU, 12), timeout=3000)
             ctx.log('%s: %d distinct states' % (cfg, r.distinct))
         r = ctx.tlc_expect_ok(['nvidia'], 'MC_NvParse.tla', 'MC_NvParse_big.cfg', timeout=1800)
         ctx.log('MC_NvParse_big: %d cases' % r.distinct)
@@ -406,16 +491,23 @@ def run(ctx, selftest=False):
     if thorough:
         shipped.append({'mode': 'dir', 'dir': SHIPPED, 'a100': True, 'shape': [], 'tr': [], 'submitAt': [0],
                         'engine': 'serial', 'runner': True, 'src': 'shipped-A100'})
-    good = [s for s in allsc if not degenerate(s['tr'])] + shipped
+    good = [s for s in allsc if not degenerate(s['tr'])]
     degen = [s for s in allsc if degenerate(s['tr'])]
     ctx.sample({'scenario_from_TLC_behaviour': tl[0]})
     ctx.sample({'random_scenario': rnd[0]})
     t_good, st1 = run_driver(ctx, drv, good, 'good')
     t_deg, st2 = run_driver(ctx, drv, degen, 'degen')
-    ctx.log('runs without empty units: %d (%d events); with empty units: %d (%d events)' % (
-        st1['runs'], st1['events'], st2['runs'], st2['events']))
+    t_ship, st0 = run_driver(ctx, drv, shipped, 'shipped')
+    ctx.log('runs without empty units: %d (%d events); with empty units: %d (%d events); shipped trace: %d (%d events)' % (
+        st1['runs'], st1['events'], st2['runs'], st2['events'], st0['runs'], st0['events']))
     validate(ctx, TSIM, t_good, good, 'simulation')
     validate(ctx, TSIM, t_deg, degen, 'simulation')
+    validate(ctx, TSIM, t_ship, shipped, 'simulation of the shipped trace')
+    conformance_of_tick_model(ctx, t_good)
+    conformance_of_tick_model(ctx, t_deg)
+    if thorough:
+        conformance_of_tick_model(ctx, t_ship)
+    good = good + shipped
 
     # 4. parser round trip
     ps = parse_scenarios(ctx, 300 if thorough else 40, thorough)
@@ -432,13 +524,19 @@ def run(ctx, selftest=False):
                                if ln['k'] == 'inst' for j, t in enumerate(ln['toks'])):
             nt.add(json.dumps(ps[i], sort_keys=True))
     ctx.cov.update({'evaluations': len(good) + len(degen) + len(ps), 'distinct_nontrivial': len(nt),
-                    'events_validated': st1['events'] + st2['events'], 'parse_records_validated': st3['pevents'],
+                    'events_validated': st0['events'] + st1['events'] + st2['events'], 'parse_records_validated': st3['pevents'],
                     'scenarios_from_tlc': len(tl), 'scenarios_random': len(rnd) + len(rnd_deg),
                     'runs_with_empty_units': len(degen)})
 
     # 5. binding self-tests
     results = []
-    for tspec, path, corr in ((TSIM, t_good, sim_corruptions()), (TPARSE, t_parse, parse_corruptions())):
+    tests = [(TSIM, t_good, sim_corruptions()), (TPARSE, t_parse, parse_corruptions())]
+    if ctx.cov.get('tick_model', {}).get('mismatch') is None:
+        tests.append((TTICK, tick_file(t_good), tick_corruptions()))
+    pick = random.Random(ctx.seed)
+    for tspec, path, corr in tests:
+        if not thorough:
+            corr = pick.sample(corr, 3)      # every corruption is run in the thorough tier
         try:
             results += common.selftest_binding(ctx, tspec, path, corr)
         except vlib.Infra as e:
